@@ -180,6 +180,42 @@ def _case(lk, sl, via, layout, opt=0):
         return rt.ok()
 
 
+def _together(which, order, layout):
+    """one invocation naming a link AND what it points to (or two links to one target): each name is an entry of
+    its own, the link must be trashed as a link whatever else is on the command line"""
+    with rt.untraced():
+        rt.begin(('together', which, order, LAYOUT[layout]))
+        base = '/h/w' if LAYOUT[layout] == 'home' else '/v/w'
+        d = base + '/d'
+        nodes = [W.d('/h'), W.d(d), W.f(d + '/tf', 'TARGET-FILE', 0o644, 900), W.d(d + '/td'), W.f(d + '/td/in', 'IN', 0o644, 901),
+                 W.l(d + '/lf', 'tf', 1000), W.l(d + '/ld', d + '/td', 1001), W.l(d + '/l2', 'lf', 1002), W.l(d + '/lf2', d + '/tf', 1003)]
+        if LAYOUT[layout] == 'top':
+            nodes.append(W.d('/v/.Trash', 0o1777))
+        pair = [('tf', 'lf'), ('td', 'ld'), ('lf', 'l2'), ('lf', 'lf2'), ('td/', 'ld')][which]
+        args = list(pair) if order == 0 else [pair[1], pair[0]]
+        m, res = scen.run_model(W.W(mounts=K.MOUNTS, cwd=d, nodes=nodes), [{'snap': '/'}, C('put', ['--'] + args, scen.env(), cwd=d), {'snap': '/'}])
+        before, r, after = res
+        label = 'together:%s+%s' % tuple(args)
+        if r['exc'] or r['exit'] != 0:
+            return rt.fail('C18:put-failed:' + label, repr(r)[:300])
+        for a in args:
+            p = d + '/' + a.rstrip('/')
+            if scen.sub(after, p) is not None:
+                return rt.fail('C18:exit-0-but-link-not-trashed:' + label, '%s is still in place (exit 0, stderr %r)' % (p, r['err'][-200:]))
+            orig = scen.sub(before, p)
+            if not scen.find_equal(after, orig):
+                return rt.fail('C18:payload-is-not-the-link:' + label, '%s (%s) is nowhere in the trash as itself' % (p, orig[0]))
+        return rt.ok()
+
+
+def w_together(which: int, order: int, layout: int) -> str:
+    """
+    pre: 0 <= which < 5 and 0 <= order < 2 and 0 <= layout < 3
+    post: _ == ''
+    """
+    return _together(rt.sel(which, 5), rt.sel(order, 2), rt.sel(layout, 3))
+
+
 def w_main(lk: int, sl: int, via: int, layout: int, opt: int) -> str:
     """
     pre: PARTITION is None or layout == PARTITION
@@ -194,6 +230,8 @@ def obligations(tier):
         CH('K_location_only_parent_resolved', MOD, 'k_location', timeout=400 if tier == 'quick' else 1800, partitions=[5 if tier == 'quick' else 8], engine='K', regime='traced',
            encodes=['OriginalLocation.for_file', 'Fs.parent_realpath2'], stubs=['realpath -> recorder', 'posixpath.normpath -> recorder answering with a free symbolic string'],
            bounds='argument: any str 1<=len<=3; its normal form: ANY str 1<=len<=%d' % (5 if tier == 'quick' else 8)),
+        CH('W_link_named_together_with_its_target', MOD, 'w_together', timeout=300, engine='W', regime='selector', encodes=K.PUT_FUNCS, stubs=K.STUBS,
+           bounds='one invocation naming a link and its target (file, directory, another link, a second link to the same file, the directory spelled with a slash) in both orders x 3 layouts'),
         CH('W_link_x_slashes_x_via_x_layout', MOD, 'w_main', timeout=900, partitions=list(range(4)), engine='W', regime='selector',
            encodes=K.PUT_FUNCS + K.RESTORE_FUNCS, stubs=K.STUBS, bounds='10 link kinds x 0-3 trailing slashes x 4 spellings x 4 layouts (incl. cross-volume via the home fallback) x 5 option sets (none, -f, -v, -i answered y, -rf)'),
     ]
